@@ -918,6 +918,25 @@ impl StepOracle for CapsOracle {
                 });
             }
         }
+        if let Action::Deposit { up_to_limit: Some(true), .. } = c.a {
+            if !c.res.committed && c.res.code != ERR_ASSET_CAPACITY && bank_pre.config.deposit_limit != u64::MAX {
+                // differential: the same deposit with the limit lifted; if it commits, the cap caused the failure
+                let mut t = c.pre.s.clone();
+                world::edit_bank(&mut t, &bh.key, |bk| bk.config.deposit_limit = u64::MAX);
+                if crate::act::apply(c.w, &mut t, c.a).committed {
+                    out.push(Violation {
+                        clause: "C17.up_to_limit_never_capacity_fails".into(),
+                        detail: format!(
+                            "{:?} failed with {} and succeeds once the deposit limit is lifted (deposit limit {}, deposits before {:.6}): the cap made an up-to-limit deposit fail",
+                            c.a,
+                            crate::svm::err_name(c.res.code),
+                            bank_pre.config.deposit_limit,
+                            rf::qf64(&c.pre_nums[b].deposits())
+                        ),
+                    });
+                }
+            }
+        }
         if !c.res.committed {
             if c.res.code == ERR_ASSET_CAPACITY {
                 tags.push("capacity_rejected");
